@@ -66,3 +66,4 @@ Definition to_uint64 (z : Z) : N := Z.to_N (z mod (Z.of_N two64))%Z.
 Definition is_lt (c : comparison) : bool := match c with Lt => true | _ => false end.
 Definition is_eq (c : comparison) : bool := match c with Eq => true | _ => false end.
 Definition is_gt (c : comparison) : bool := match c with Gt => true | _ => false end.
+
